@@ -18,6 +18,7 @@ mod probe_calendars;
 mod probe_linalg;
 mod probe_fx;
 mod probe_splines;
+mod probe_ctor;
 
 /// counters filled by the probes that report coverage (comparisons made, distinct cases built, one case written out)
 pub static EVALS: std::sync::atomic::AtomicUsize = std::sync::atomic::AtomicUsize::new(0);
@@ -501,7 +502,7 @@ fn main() {
         }
         "probe" => {
             let func = args.get(2).map(|s| s.as_str()).unwrap_or("");
-            let found = probe_dateroll(func) || probe_months(func) || probe_dual::probe(func) || probe_curves::probe(func) || probe_calendars::probe(func) || probe_linalg::probe(func) || probe_fx::probe(func) || probe_splines::probe(func);
+            let found = probe_ctor::probe(func) || probe_dateroll(func) || probe_months(func) || probe_dual::probe(func) || probe_curves::probe(func) || probe_calendars::probe(func) || probe_linalg::probe(func) || probe_fx::probe(func) || probe_splines::probe(func);
             if !found {
                 println!(
                     "{{\"probe\":\"{}\",\"result\":\"no failing input found\",\"evaluations\":{},\"cases\":{},\"sample\":\"{}\"}}",
